@@ -87,6 +87,8 @@ mod symbol_size;
 pub mod data;
 
 #[cfg(datamatrix_verif)]
+extern crate std;
+#[cfg(datamatrix_verif)]
 pub mod verif;
 
 pub use encodation::EncodationType;
